@@ -51,6 +51,7 @@ type vL18Scenario struct {
 	Req   string     `json:"req"`
 	RSeed int64      `json:"rseed"`
 	Craft string     `json:"craft"`
+	MM    string     `json:"mm"` // "empty": a mismatch answer is a collection with an empty manifest text
 	Seq   bool       `json:"seq"`
 }
 
@@ -317,6 +318,9 @@ func vL18Run(wk *vL18Worker, scn vL18Scenario) []map[string]interface{} {
 		field := arvados.PortableDataHash(mt)
 		if plan == "mismatch" {
 			mt = vC18Tamper(rng, mt)
+			if scn.MM == "empty" {
+				mt = "" // 200 with the manifest stripped
+			}
 			if scn.Mode == "pdh" && rng.Intn(2) == 0 {
 				field = want
 			}
